@@ -1,11 +1,12 @@
 package main
 
 // Write-path leg (C02 "a write whose outcome is unknown to the client takes effect at most once", client side):
-// the real writeBatch (its doRequestWithRetries loop and isRetriable) over the real streamWrapper, over in-memory
-// gRPC streams whose behaviour the case scripts attempt by attempt. The get-or-create of the shard's stream
-// (executorImpl.writeStream: reuse the stream unless it has failed, else open a new one) is re-stated here, because
-// oxia/internal is not importable. Observed: every stream.Send that returned nil (the request is on the wire) and
-// the outcome handed to the callback. A request that was on the wire must never be sent again.
+// the real writeBatch (its doRequestWithRetries loop and isRetriable) over the REAL executor (executorImpl.ExecuteWrite and
+// writeStream, through the verif hook) over the real streamWrapper, over in-memory gRPC streams handed out by a fake
+// connection pool whose behaviour the case scripts attempt by attempt. The server side is a real kv.DB that applies every
+// request that reaches it. Observed: every stream.Send that returned nil (the request is on the wire) and the outcome
+// handed to the callback. A request that was on the wire must never be sent again, the caller must be told what the shard
+// answered, and the shard must hold every request applied once.
 //
 //	wsend <id> <req>;<req>;...     req = attempts joined by "+":
 //	     c<code> the stream cannot be opened | s<code> stream.Send fails | a<payload> sent and answered |
@@ -24,36 +25,63 @@ import (
 
 	"google.golang.org/grpc"
 	"google.golang.org/grpc/codes"
+	"google.golang.org/grpc/health/grpc_health_v1"
 	"google.golang.org/grpc/status"
 
 	"github.com/oxia-db/oxia/oxia"
 	"github.com/oxia-db/oxia/proto"
+	"github.com/oxia-db/oxia/server/kv"
 
 	"verif/harness/internal/hx"
 )
 
+// wsFake is one in-memory gRPC write stream handed out by the fake connection pool.
 type wsFake struct {
 	grpc.ClientStream
-	ctx     context.Context
-	cancel  context.CancelFunc
-	sendRes chan error    // result of the next stream.Send
-	sent    chan struct{} // stream.Send has returned
-	recvC   chan recvItem
-	dead    chan struct{}
-	onSent  func()
-	exits   chan exitMsg
-	sw      *oxia.VerifStreamWrapper
+	ctx    context.Context
+	cancel context.CancelFunc
+	recvC  chan recvItem
+	dead   chan struct{}
+	run    *wsendRun
 }
 
 func (f *wsFake) Context() context.Context { return f.ctx }
-func (f *wsFake) Send(*proto.WriteRequest) error {
-	err := <-f.sendRes
-	if err == nil {
-		f.onSent()
+func (*wsFake) CloseSend() error           { return nil }
+
+// Send is the transport: it consumes the next scripted attempt.
+func (f *wsFake) Send(req *proto.WriteRequest) error {
+	w := f.run
+	att := w.take()
+	switch att.kind {
+	case 's', 'c': // (c cannot be honoured on a stream that exists: treat it as a failing Send)
+		return status.Error(codes.Code(att.arg), "scripted: stream.Send fails")
+	case 'a':
+		w.log("S")
+		resp := w.server(req)
+		w.mu.Lock()
+		w.payload[resp] = att.arg
+		w.mu.Unlock()
+		go func() {
+			select {
+			case f.recvC <- recvItem{r: resp}:
+			case <-f.dead:
+			}
+		}()
+		return nil
+	default: // 'f': the request is on the wire, the leader applies it, and the stream breaks before the response
+		w.log("S")
+		w.server(req)
+		go func() {
+			select {
+			case f.recvC <- recvItem{err: status.Error(codes.Code(att.arg), "scripted: stream broken")}:
+			case <-f.dead:
+			}
+			f.cancel()
+		}()
+		return nil
 	}
-	f.sent <- struct{}{}
-	return err
 }
+
 func (f *wsFake) Recv() (*proto.WriteResponse, error) {
 	select {
 	case it := <-f.recvC:
@@ -62,6 +90,44 @@ func (f *wsFake) Recv() (*proto.WriteResponse, error) {
 		return nil, io.EOF
 	}
 }
+
+// wsClient / wsPool: the connection pool the real executor gets its write streams from.
+type wsClient struct {
+	proto.OxiaClientClient
+	run *wsendRun
+}
+
+func (c *wsClient) WriteStream(ctx context.Context, _ ...grpc.CallOption) (proto.OxiaClient_WriteStreamClient, error) {
+	w := c.run
+	if att, ok := w.peek(); ok && att.kind == 'c' {
+		w.take()
+		return nil, status.Error(codes.Code(att.arg), "scripted: cannot open the write stream")
+	}
+	sctx, cancel := context.WithCancel(ctx)
+	f := &wsFake{ctx: sctx, cancel: cancel, recvC: make(chan recvItem), dead: make(chan struct{}), run: w}
+	w.mu.Lock()
+	w.all = append(w.all, f)
+	w.cur = f
+	w.mu.Unlock()
+	return f, nil
+}
+
+type wsPool struct{ run *wsendRun }
+
+func (*wsPool) Close() error { return nil }
+func (p *wsPool) GetClientRpc(string) (proto.OxiaClientClient, error) {
+	return &wsClient{run: p.run}, nil
+}
+func (*wsPool) GetHealthRpc(string) (grpc_health_v1.HealthClient, io.Closer, error) {
+	return nil, nil, errors.New("not used")
+}
+func (*wsPool) GetCoordinationRpc(string) (proto.OxiaCoordinationClient, error) {
+	return nil, errors.New("not used")
+}
+func (*wsPool) GetReplicationRpc(string) (proto.OxiaLogReplicationClient, error) {
+	return nil, errors.New("not used")
+}
+func (*wsPool) Clear(string) {}
 
 type wattempt struct {
 	kind byte // c s a f
@@ -75,6 +141,13 @@ type wsendRun struct {
 	next     int
 	obs      []string
 	all      []*wsFake
+	payload  map[*proto.WriteResponse]int
+	// the server: a real kv.DB that applies every request that reaches it, in order
+	db        kv.DB
+	applied   int
+	firstResp map[string]*proto.WriteResponse // request tag (its first put's key) -> what the DB produced the first time
+	timesSeen map[string]int
+	applyErr  error
 }
 
 func (w *wsendRun) log(s string) {
@@ -83,88 +156,50 @@ func (w *wsendRun) log(s string) {
 	w.mu.Unlock()
 }
 
-func (w *wsendRun) newStream() *wsFake {
-	ctx, cancel := context.WithCancel(context.Background())
-	f := &wsFake{ctx: ctx, cancel: cancel, sendRes: make(chan error, 1), sent: make(chan struct{}, 1),
-		recvC: make(chan recvItem), dead: make(chan struct{}), exits: make(chan exitMsg, 4)}
-	f.onSent = func() { w.log("S") }
-	f.sw = oxia.NewVerifStreamWrapper(f, func(which string, p any) { f.exits <- exitMsg{which, p} })
-	w.all = append(w.all, f)
-	return f
-}
-
-// breakStream ends a stream the way gRPC does when the connection goes away: its context is done.
-func breakStream(f *wsFake) {
-	f.cancel()
-	deadline := time.After(5 * time.Second)
-	for !f.sw.Failed() {
-		select {
-		case <-deadline:
-			return
-		default:
-			time.Sleep(50 * time.Microsecond)
-		}
+func (w *wsendRun) peek() (wattempt, bool) {
+	w.mu.Lock()
+	defer w.mu.Unlock()
+	if w.next < len(w.attempts) {
+		return w.attempts[w.next], true
 	}
+	return wattempt{}, false
 }
 
-// execute is what the write batch calls for every attempt (executorImpl.ExecuteWrite).
-func (w *wsendRun) execute(ctx context.Context, req *proto.WriteRequest) (*proto.WriteResponse, error) {
+func (w *wsendRun) take() wattempt {
+	w.mu.Lock()
+	defer w.mu.Unlock()
 	att := wattempt{kind: 'a', arg: 0}
 	if w.next < len(w.attempts) {
 		att = w.attempts[w.next]
 	}
 	w.next++
-	// writeStream(shard): the shard's stream is reused unless it has failed
-	if att.kind == 'c' && w.cur != nil && !w.cur.sw.Failed() {
-		breakStream(w.cur) // the script wants the connection to be gone
-	}
-	if w.cur == nil || w.cur.sw.Failed() {
-		if att.kind == 'c' {
-			return nil, status.Error(codes.Code(att.arg), "scripted: cannot open the write stream")
-		}
-		w.cur = w.newStream()
-	} else if att.kind == 'c' {
-		return nil, errors.New("harness: could not break the stream")
-	}
-	f := w.cur
-	switch att.kind {
-	case 's':
-		f.sendRes <- status.Error(codes.Code(att.arg), "scripted: stream.Send fails")
-	default:
-		f.sendRes <- nil
-		go func() {
-			select {
-			case <-f.sent:
-			case <-time.After(10 * time.Second):
-				return
-			}
-			if att.kind == 'a' {
-				resp := &proto.WriteResponse{Puts: []*proto.PutResponse{{Status: proto.Status_OK,
-					Version: &proto.Version{VersionId: int64(att.arg)}}}}
-				select {
-				case f.recvC <- recvItem{r: resp}:
-				case <-time.After(10 * time.Second):
-				}
-				return
-			}
-			// 'f': the stream breaks while the request is in flight: Recv reports the status, the context ends
-			select {
-			case f.recvC <- recvItem{err: status.Error(codes.Code(att.arg), "scripted: stream broken")}:
-			case <-time.After(10 * time.Second):
-			}
-			select {
-			case <-f.exits:
-			case <-time.After(10 * time.Second):
-			}
-			f.cancel()
-		}()
-	}
-	resp, err := f.sw.Send(ctx, req)
-	if att.kind == 's' {
-		<-f.sent
-	}
-	return resp, err
+	return att
 }
+
+// server applies the request to the shard's DB, as the leader does before it answers.
+func (w *wsendRun) server(req *proto.WriteRequest) *proto.WriteResponse {
+	w.mu.Lock()
+	defer w.mu.Unlock()
+	resp, err := w.db.ProcessWrite(req, int64(w.applied), uint64(1000+w.applied), kv.NoOpCallback)
+	w.applied++
+	if err != nil {
+		w.applyErr = err
+		return &proto.WriteResponse{}
+	}
+	tag := ""
+	if len(req.Puts) > 0 {
+		tag = req.Puts[0].Key
+	}
+	w.timesSeen[tag]++
+	if _, ok := w.firstResp[tag]; !ok {
+		w.firstResp[tag] = resp
+	}
+	return resp
+}
+
+// wsRequestPuts: request i is an unconditional put (a second application shows in the modification count) and a put that
+// requires its key not to exist (a second application is answered UNEXPECTED_VERSION_ID)
+func wsRequestPuts(i int) (string, string) { return fmt.Sprintf("u%d", i), fmt.Sprintf("n%d", i) }
 
 func parseWsend(s string) [][]wattempt {
 	var res [][]wattempt
@@ -191,37 +226,90 @@ func fmtWsend(reqs [][]wattempt) string {
 	return strings.Join(rs, ";")
 }
 
-func runWsend(reqs [][]wattempt) string {
-	w := &wsendRun{}
+type wsendOutcome struct {
+	res      string
+	resent   string // a request that reached the transport more than once
+	wrongRes string // a caller that was not handed what the DB produced for the first application of its request
+	state    string // the shard does not hold the sequential application of the requests, each once
+}
+
+func runWsend(reqs [][]wattempt) wsendOutcome {
+	var oc wsendOutcome
+	db, err := wdbNewDB()
+	if err != nil {
+		oc.res = "NO-DB"
+		return oc
+	}
+	defer db.Close()
+	w := &wsendRun{payload: map[*proto.WriteResponse]int{}, db: db, firstResp: map[string]*proto.WriteResponse{}, timesSeen: map[string]int{}}
+	ctx, cancelAll := context.WithCancel(context.Background())
+	defer cancelAll()
+	// the real executor of the client: ExecuteWrite -> writeStream (cached per shard unless failed) -> streamWrapper.Send
+	ex := oxia.NewVerifExecutor2(ctx, &wsPool{run: w})
 	var out []string
 	for i, atts := range reqs {
-		w.attempts, w.next = atts, 0
+		if len(atts) > 0 && atts[0].kind == 'c' {
+			// the script wants the connection to be gone: the cached stream, if healthy, is broken first
+			if cached, failed := ex.WriteStreamState(0); cached && !failed {
+				w.mu.Lock()
+				cur := w.cur
+				w.mu.Unlock()
+				if cur != nil {
+					cur.cancel()
+				}
+				waitUntil(5*time.Second, func() bool { _, f := ex.WriteStreamState(0); return f })
+			}
+		}
 		w.mu.Lock()
-		w.obs = nil
+		w.attempts, w.next, w.obs = atts, 0, nil
 		w.mu.Unlock()
-		b := oxia.VerifNewWriteBatch(1, 1<<20, 5*time.Second, w.execute)
+		b := oxia.VerifNewWriteBatch(0, 1<<20, 5*time.Second, ex.ExecuteWrite)
 		done := make(chan string, 2)
-		b.Add(oxia.VerifPutCall{Key: fmt.Sprintf("w%d", i), Value: []byte("v"), Callback: func(r *proto.PutResponse, err error) {
+		var got *proto.PutResponse
+		ukey, nkey := wsRequestPuts(i)
+		notExists := int64(-1)
+		report := func(r *proto.PutResponse, err error) string {
 			switch {
-			case err == nil && r != nil && r.Version != nil:
-				done <- fmt.Sprintf("ok%d", r.Version.VersionId)
+			case err == nil && r != nil:
+				return "ok"
 			case err == nil:
-				done <- "ok?"
+				return "ok?"
 			case errors.Is(err, io.EOF):
-				done <- "erreof"
+				return "erreof"
 			default:
 				if st, ok := status.FromError(err); ok {
-					done <- fmt.Sprintf("err%d", int(st.Code()))
-				} else {
-					done <- "err?" + strings.ReplaceAll(err.Error(), " ", "_")
+					return fmt.Sprintf("err%d", int(st.Code()))
 				}
+				return "err?" + strings.ReplaceAll(err.Error(), " ", "_")
 			}
+		}
+		b.Add(oxia.VerifPutCall{Key: ukey, Value: []byte("v"), Callback: func(r *proto.PutResponse, err error) {
+			got = r
+			done <- report(r, err)
 		}})
+		b.Add(oxia.VerifPutCall{Key: nkey, Value: []byte("v"), ExpectedVersionId: &notExists, Callback: func(*proto.PutResponse, error) {}})
 		if safely(b.Complete) {
 			w.log("PANIC")
 		}
 		select {
 		case r := <-done:
+			if r == "ok" {
+				// which response was it? the payload of the scripted answer it belongs to
+				w.mu.Lock()
+				p := -1
+				for resp, pl := range w.payload {
+					if len(resp.Puts) > 0 && resp.Puts[0] == got {
+						p = pl
+					}
+				}
+				first := w.firstResp[ukey]
+				w.mu.Unlock()
+				r = fmt.Sprintf("ok%d", p)
+				if first == nil || len(first.Puts) == 0 || first.Puts[0] != got {
+					oc.wrongRes = fmt.Sprintf("request %d: the caller was told [put:%s] which is not what the shard answered when it first applied the request [%s]",
+						i, got.Status, fmtWriteResponse(first))
+				}
+			}
 			w.log(r)
 		default:
 			w.log("NO-OUTCOME")
@@ -233,19 +321,75 @@ func runWsend(reqs [][]wattempt) string {
 		}
 		w.mu.Lock()
 		out = append(out, strings.Join(w.obs, ","))
+		if n := w.timesSeen[ukey]; n > 1 && oc.resent == "" {
+			oc.resent = fmt.Sprintf("request %d reached the shard %d times", i, n)
+		}
 		w.mu.Unlock()
 	}
+	// the shard must hold every request that reached it applied once, in order
+	var keys []string
+	ref, rerr := wdbNewDB()
+	if rerr == nil {
+		defer ref.Close()
+		k := 0
+		for i := range reqs {
+			ukey, nkey := wsRequestPuts(i)
+			keys = append(keys, ukey, nkey)
+			w.mu.Lock()
+			seen := w.timesSeen[ukey]
+			w.mu.Unlock()
+			if seen == 0 {
+				continue
+			}
+			notExists := int64(-1)
+			shard := int64(0)
+			_, _ = ref.ProcessWrite(&proto.WriteRequest{Shard: &shard, Puts: []*proto.PutRequest{
+				{Key: ukey, Value: []byte("v")}, {Key: nkey, Value: []byte("v"), ExpectedVersionId: &notExists}}}, int64(k), uint64(1000+k), kv.NoOpCallback)
+			k++
+		}
+		// version ids depend on how many requests were applied before: compare existence and modification counts
+		strip := func(s string) string {
+			var parts []string
+			for _, f := range strings.Fields(s) {
+				if i := strings.Index(f, "/v"); i >= 0 {
+					j := strings.Index(f[i+1:], "/")
+					f = f[:i] + f[i+1+j:]
+				}
+				parts = append(parts, f)
+			}
+			return strings.Join(parts, " ")
+		}
+		if a, b := strip(dumpKeys(db, keys)), strip(dumpKeys(ref, keys)); a != b {
+			oc.state = fmt.Sprintf("shard [%s], every request applied once [%s]", a, b)
+		}
+	}
+	cancelAll()
+	w.mu.Lock()
 	for _, f := range w.all {
 		f.cancel()
 		close(f.dead)
 	}
-	return strings.Join(out, ";")
+	w.mu.Unlock()
+	oc.res = strings.Join(out, ";")
+	return oc
 }
 
 func doWsendCase(o *hx.Out, reqs [][]wattempt) {
 	in := fmtWsend(reqs)
-	res := runWsend(reqs)
+	oc := runWsend(reqs)
+	res := oc.res
 	o.Case("wsend", in, res, in)
+	switch {
+	case oc.resent != "":
+		o.Violation("write:resent-after-send", fmt.Sprintf("wsend %s => %s (%s)", in, res, oc.resent))
+		return
+	case oc.wrongRes != "":
+		o.Violation("write:result-of-another-request", fmt.Sprintf("wsend %s => %s (%s)", in, res, oc.wrongRes))
+		return
+	case oc.state != "":
+		o.Violation("write:state-not-sequential", fmt.Sprintf("wsend %s => %s (%s)", in, res, oc.state))
+		return
+	}
 	for i, r := range strings.Split(res, ";") {
 		obs := strings.Split(r, ",")
 		sent, outcomes := 0, 0
